@@ -286,6 +286,56 @@ func runC15(args []string) int {
 					r.hist("second_record_with_invalid_value")
 				}
 			}
+			// every OTHER base type the definition validator admits for this entry (smallest and largest admitted
+			// size of each): the stores parseFitField / parseFitFieldArray then make into the struct field must
+			// not fail either, and agree with the model
+			for bt := 0; bt < 256; bt++ {
+				if !types.Base(bt).Known() || types.Base(bt) == f.T.BaseType() {
+					continue
+				}
+				row, _ := implRow(mn, f.Num, byte(bt))
+				lo, hi := -1, -1
+				for sz := 1; sz < 256; sz++ {
+					if row[sz] == 'o' {
+						if lo < 0 {
+							lo = sz
+						}
+						hi = sz
+					}
+				}
+				if lo < 0 {
+					continue
+				}
+				for _, size := range map[bool][]int{true: {lo}, false: {lo, hi}}[lo == hi] {
+					pay := make([]byte, size)
+					for i := range pay {
+						pay[i] = byte(0x21 + (i*7+int(f.Num))%90)
+					}
+					s := &stream{HdrSize: 14, Proto: 0x10, Profile: 2115, HdrCRC: "ok"}
+					s.Records = append(s.Records,
+						record{Kind: "D", Local: 0, Gmn: 0, Fields: []fieldDefS{{0, 1, 0}}},
+						record{Kind: "M", Local: 0, Pay: []byte{ft}},
+						record{Kind: "D", Local: 1, Arch: byte(size & 1), Gmn: mn, Fields: []fieldDefS{{f.Num, byte(size), byte(bt)}}},
+						record{Kind: "M", Local: 1, Pay: pay})
+					s.fillHex()
+					rs := readerSpec{Data: s.bytes()}
+					impl, model, err := w.decode("D", optSet{}, rs)
+					if err != nil {
+						fmt.Println("driver:", err)
+						return 2
+					}
+					r.count(fmt.Sprintf("%s.alt%d.%d", tag, bt, size), hosted)
+					r.hist("admitted_alternative_base_types")
+					r.Traces++
+					rep2 := map[string]interface{}{"entry": "Decode", "stream": s, "input_hex": hexs(rs.Data), "mesgnum": mn, "field": f.Num, "base_type": bt, "size": size}
+					if impl.Panic != "" {
+						r.specFail("decode_panic", fmt.Sprintf("entry %s: the validator admits base type 0x%02x size %d, and Decode of such a field panics: %s", tag, bt, size, impl.Panic), rep2)
+					}
+					if impl.observable() != model.observable() {
+						r.corrFail("decode_entry", fmt.Sprintf("entry %s with admitted base type 0x%02x size %d: model and implementation differ\n    impl : %.400s\n    model: %.400s", tag, bt, size, impl.observable(), model.observable()), rep2)
+					}
+				}
+			}
 			r.hist(fmt.Sprintf("kind%d_array%v", f.T.Kind(), f.T.Array()))
 		}
 		// the entry of field 253 is also consulted outside parseDataFields: a compressed-timestamp header stores
@@ -343,6 +393,33 @@ func runC15(args []string) int {
 				}
 			}()
 			r.hist("hosted_messages")
+			// string fields with values around the profile length and around the one-byte size limit: the size
+			// Encode declares comes from the table alone
+			for _, pf := range mi.Fields {
+				if pf.T.Array() || pf.T.BaseType() != types.BaseString {
+					continue
+				}
+				for _, n := range []int{int(pf.Length) - 1, int(pf.Length), 254, 255, 256, 257, 300, 511, 512} {
+					if n < 0 {
+						continue
+					}
+					f2, _ := fitNewFile(ft)
+					pv, _ := fit.VerifNewMesg(int(mn))
+					b := make([]byte, n)
+					for i := range b {
+						b[i] = byte('a' + (i+n)%26)
+					}
+					pv.Elem().Field(pf.Sindex).SetString(string(b))
+					in := reflect.New(pv.Elem().Type()).Elem()
+					in.Set(pv.Elem())
+					fit.VerifFileAdd(f2, in)
+					if _, err := checkC05Case(r, d, &fileCase{File: f2, BE: n%2 == 1}, 1000); err != nil {
+						fmt.Println("driver:", err)
+						return 2
+					}
+					r.hist("encode_strings_at_size_limits")
+				}
+			}
 		} else {
 			r.hist("unhosted_messages")
 		}
